@@ -151,6 +151,7 @@ def serve_inventories(case: dict):
 
 def run_case(arg) -> dict:
     case, seeds, keep = arg
+    seeds = case.get('seeds', seeds)          # a case may ask for more hash seeds than the batch
     d = Path(tempfile.mkdtemp(prefix='verif_c18_'))
     server = None
     if case.get('inventories'):
